@@ -86,6 +86,9 @@ type Opts struct {
 	// Inline decides whether a module callee with a body is expanded (E7).
 	Inline    func(callee *ssa.Function) bool
 	Callbacks bool
+	// WalkRounds: number of symbolic invocations of a collections Walk callback (default 1);
+	// the element of round r > 0 is cbargN(call, r), like position r of a cursor
+	WalkRounds int
 	// ParamNames gives canonical names to the entry function's parameters by
 	// position (receiver first) so that rules do not depend on local naming.
 	ParamNames []string
@@ -1284,6 +1287,17 @@ func (e *engine) doCall(fr *frame, site ssa.Instruction, c *ssa.CallCommon, preF
 	for i, a := range args {
 		args[i] = e.filled(a)
 	}
+	// slices.Contains / Index / ContainsFunc / IndexFunc: a linear search, modelled as the
+	// loop it abbreviates (no element; or one symbolic element on which the predicate decides)
+	if e.slicesSearch(fr, site, name, args, resT, cont) {
+		return
+	}
+	// a collections cursor (Iterate + Valid / Next / Key / Value / KeyValue / Close): the
+	// explicit form of Walk; its elements are the same symbolic key / value Walk's callback sees
+	if r, handled := e.collIterator(name, args, resT); handled {
+		cont(r)
+		return
+	}
 	// a local bytes.Buffer is an append-only byte sequence: Write / WriteByte / WriteString /
 	// binary.Write extend the cell's content, Bytes / String read it, Grow / Reset(empty) are
 	// capacity management.  Only buffers that live in a local cell are modelled.
@@ -1603,6 +1617,10 @@ func mayWriteThrough(fn *ssa.Function, idx, depth int, seen map[*ssa.Function]bo
 }
 
 func (e *engine) runCallbacks(fr *frame, site ssa.Instruction, callT *Term, args []*Term, k int, cont func()) {
+	e.runCallbackRound(fr, site, callT, args, k, 0, cont)
+}
+
+func (e *engine) runCallbackRound(fr *frame, site ssa.Instruction, callT *Term, args []*Term, k, round int, cont func()) {
 	for ; k < len(args); k++ {
 		a := args[k]
 		if a.Op != "closure" && a.Op != "fn" {
@@ -1617,10 +1635,14 @@ func (e *engine) runCallbacks(fr *frame, site ssa.Instruction, callT *Term, args
 			e.o.OnInline(target)
 		}
 		e.emit(Event{Kind: EvCbBegin, Call: callT, Fun: a, Instr: site, Fn: fr.fn, Depth: fr.depth})
-		fkey, fvis := e.frameVisits(fr, site, kk)
+		fkey, fvis := e.frameVisits(fr, site, kk+100*round)
 		nf := &frame{fn: target, env: map[ssa.Value]*Term{}, visits: fvis, key: fkey, depth: fr.depth + 1, free: a.Args}
 		for i, p := range target.Params {
-			nf.env[p] = &Term{Op: "opaque", Name: "cbarg" + strconv.Itoa(i), Args: []*Term{callT}, Typ: p.Type()}
+			t := &Term{Op: "opaque", Name: "cbarg" + strconv.Itoa(i), Args: []*Term{callT}, Typ: p.Type()}
+			if round > 0 {
+				t.Args = append(t.Args, intTerm(int64(round)))
+			}
+			nf.env[p] = t
 		}
 		nf.ret = func(res []*Term) {
 			e.stack = e.stack[:len(e.stack)-1]
@@ -1631,7 +1653,12 @@ func (e *engine) runCallbacks(fr *frame, site ssa.Instruction, callT *Term, args
 				r = &Term{Op: "tuple", Args: res}
 			}
 			e.emit(Event{Kind: EvCbEnd, Call: callT, Fun: a, Res: r, Instr: site, Fn: fr.fn, Depth: fr.depth})
-			e.runCallbacks(fr, site, callT, args, kk+1, cont)
+			if round+1 < e.o.WalkRounds && strings.HasSuffix(callT.Name, ").Walk") {
+				// the next element of the walk: the same callback once more
+				e.runCallbackRound(fr, site, callT, args, kk, round+1, cont)
+			} else {
+				e.runCallbackRound(fr, site, callT, args, kk+1, 0, cont)
+			}
 			e.stack = append(e.stack, nf)
 		}
 		e.stack = append(e.stack, nf)
@@ -1741,6 +1768,7 @@ var purePkgPrefixes = []string{
 	"sdkmath.", "(sdkmath.", "(*sdkmath.",
 	"errorsmod.", "(*errorsmod.", "(errorsmod.",
 	"golang.org/x/crypto/sha3.",
+	"slices.Concat", "slices.Clone", "bytes.Clone", // fresh copies: never alias their arguments
 	"collections.Join", "collections.NewPrefixedPairRange", "(*collections.PairRange", "(collections.Pair[",
 	"(*collections.Range",
 	"(address.Codec).",
@@ -1801,4 +1829,189 @@ func isPure(name string) bool {
 		}
 	}
 	return false
+}
+
+// slicesSearch models the four linear searches of package slices as the range loop they
+// stand for.  Over a slice whose elements are known (a list built on this path) the
+// predicate runs on each element in order, exactly as the loop would; over a symbolic
+// slice either there is no element and the search fails, or the predicate decides on one
+// symbolic element s[i].
+func (e *engine) slicesSearch(fr *frame, site ssa.Instruction, name string, args []*Term, resT types.Type, cont func(*Term)) bool {
+	var isFunc, isIndex bool
+	switch name {
+	case "slices.Contains":
+	case "slices.Index":
+		isIndex = true
+	case "slices.ContainsFunc":
+		isFunc = true
+	case "slices.IndexFunc":
+		isFunc, isIndex = true, true
+	default:
+		return false
+	}
+	if len(args) != 2 {
+		return false
+	}
+	var pred *Term
+	if isFunc {
+		pred = args[1]
+		if (pred.Op != "closure" && pred.Op != "fn") || pred.Fn == nil || !e.inlineable(pred.Fn, fr.depth+1) || len(pred.Fn.Params) != 1 {
+			return false
+		}
+	}
+	s := args[0]
+	var et types.Type
+	if s.Typ != nil {
+		if sl, ok := s.Typ.Underlying().(*types.Slice); ok {
+			et = sl.Elem()
+		}
+	}
+	if et == nil && isFunc {
+		et = pred.Fn.Params[0].Type()
+	}
+	if et == nil && args[1].Typ != nil {
+		et = args[1].Typ
+	}
+	intT := types.Typ[types.Int]
+	boolT := types.Typ[types.Bool]
+	miss := func() *Term {
+		if isIndex {
+			return &Term{Op: "const", Name: "-1", Typ: intT}
+		}
+		return boolTerm(false)
+	}
+	hit := func(idx *Term) *Term {
+		if isIndex {
+			return idx
+		}
+		return boolTerm(true)
+	}
+	// test: evaluate the predicate on elem, then continue with its (symbolic) truth value
+	test := func(k int, elem *Term, then func(r *Term)) {
+		if !isFunc {
+			then(binop(token.EQL, elem, args[1], boolT))
+			return
+		}
+		target := pred.Fn
+		if e.o.OnInline != nil {
+			e.o.OnInline(target)
+		}
+		callT := &Term{Op: "call", Name: funcName(target), Args: []*Term{elem}, ID: e.newID(), Typ: boolT, Site: site}
+		e.emit(Event{Kind: EvEnter, Call: callT, Instr: site, Fn: fr.fn, Depth: fr.depth, ArgVals: e.argVals(callT.Args)})
+		fkey, fvis := e.frameVisits(fr, site, 1+k)
+		nf := &frame{fn: target, env: map[ssa.Value]*Term{}, visits: fvis, key: fkey, depth: fr.depth + 1, free: pred.Args}
+		nf.env[target.Params[0]] = elem
+		nf.ret = func(res []*Term) {
+			e.stack = e.stack[:len(e.stack)-1]
+			e.emit(Event{Kind: EvExit, Call: callT, Res: res[0], Instr: site, Fn: fr.fn, Depth: fr.depth})
+			then(res[0])
+			e.stack = append(e.stack, nf)
+		}
+		e.stack = append(e.stack, nf)
+		e.runBlock(nf, target.Blocks[0], nil)
+		e.stack = e.stack[:len(e.stack)-1]
+	}
+	decide := func(r, idx *Term, onMiss func()) {
+		m := e.mark()
+		if e.assume(r, true, site, fr) {
+			cont(hit(idx))
+		}
+		e.undo(m)
+		if e.assume(r, false, site, fr) {
+			onMiss()
+		}
+		e.undo(m)
+	}
+	if l, ok := listOf(s); ok && len(l) <= e.o.MaxVisits+1 {
+		var step func(k int)
+		step = func(k int) {
+			if k == len(l) {
+				cont(miss())
+				return
+			}
+			test(k, l[k], func(r *Term) {
+				decide(r, &Term{Op: "const", Name: strconv.Itoa(k), Typ: intT}, func() { step(k + 1) })
+			})
+		}
+		step(0)
+		return true
+	}
+	// no element at all
+	m := e.mark()
+	cont(miss())
+	e.undo(m)
+	// one symbolic element
+	idx := &Term{Op: "opaque", Name: "searchidx", ID: e.newID(), Typ: intT}
+	if isIndex {
+		e.narrow(binop(token.LSS, idx, &Term{Op: "const", Name: "0", Typ: intT}, boolT), false)
+	}
+	test(0, projectIdx(s, idx, et), func(r *Term) {
+		decide(r, idx, func() { cont(miss()) })
+	})
+	return true
+}
+
+// collIterator models the read-only cursor that (collections.Map).Iterate returns.  The
+// cursor's position is the number of Next calls so far; Valid is a pure function of cursor
+// and position; the element at position 0 is denoted exactly like the key / value that Walk
+// hands to its callback (cbarg0 / cbarg1 of the opening call), later elements carry their
+// position.  Only cursors whose opening Iterate call is visible on the path are modelled.
+func (e *engine) collIterator(name string, args []*Term, resT types.Type) (*Term, bool) {
+	if !strings.HasPrefix(name, "(collections.Iterator[") && !strings.HasPrefix(name, "(collections.KeySetIterator[") {
+		return nil, false
+	}
+	if len(args) != 1 {
+		return nil, false
+	}
+	it := strip(args[0])
+	src := it
+	if src.Op == "extract" && src.Name == "0" {
+		src = src.Args[0]
+	}
+	if src.Op != "call" || !strings.HasSuffix(src.Name, ").Iterate") {
+		return nil, false
+	}
+	posKey := "iterpos:" + it.String()
+	k := int64(0)
+	if v, ok := e.mem[posKey]; ok {
+		k, _ = v.Int()
+	}
+	at := func(op string, T types.Type) *Term {
+		t := &Term{Op: "opaque", Name: op, Args: []*Term{src}, Typ: T}
+		if k > 0 {
+			t.Args = append(t.Args, intTerm(k))
+		}
+		return t
+	}
+	resAt := func(i int) types.Type {
+		if tup, ok := resT.(*types.Tuple); ok && i < tup.Len() {
+			return tup.At(i).Type()
+		}
+		return nil
+	}
+	switch methodOf(name) {
+	case "Valid":
+		return &Term{Op: "opaque", Name: "itervalid", Args: []*Term{src, intTerm(k)}, Typ: types.Typ[types.Bool]}, true
+	case "Next":
+		e.setMem(posKey, intTerm(k+1))
+		return &Term{Op: "tuple"}, true
+	case "Close":
+		return &Term{Op: "opaque", Name: "iterclose", Args: []*Term{src}, Typ: resT}, true
+	case "Key":
+		return &Term{Op: "tuple", Args: []*Term{at("cbarg0", resAt(0)), at("iterkeyerr", resAt(1))}}, true
+	case "Value":
+		return &Term{Op: "tuple", Args: []*Term{at("cbarg1", resAt(0)), at("itervalerr", resAt(1))}}, true
+	case "KeyValue":
+		kvT := resAt(0)
+		if kvT == nil {
+			return nil, false
+		}
+		st, ok := kvT.Underlying().(*types.Struct)
+		if !ok || st.NumFields() != 2 {
+			return nil, false
+		}
+		kv := update(update(&Term{Op: "zero", Typ: kvT}, st.Field(0).Name(), at("cbarg0", st.Field(0).Type())), st.Field(1).Name(), at("cbarg1", st.Field(1).Type()))
+		return &Term{Op: "tuple", Args: []*Term{kv, at("iterkverr", resAt(1))}}, true
+	}
+	return nil, false
 }
